@@ -31,6 +31,10 @@ class Opts:
         self.p_through = 0.15
         self.p_passthrough = 0.2
         self.p_deep_link = 0.3
+        self.p_const_width = 0.25          # a leaf carries a constant resource `width` (type other)
+        self.p_output_child_res = 0.3      # … which its parent mentions in the declared size of an output register
+        self.leaf_outputs = [0, 1, 1, 1, 2]   # number of output ports of a leaf that has inputs
+        self.p_inner_wire = 0.7              # an input is fed by a waiting sibling output (rather than by a new parent input)
         self.p_fraction_param = 0.3     # numeric arithmetic/geometric sequence parameters that are half-integers
         self.p_port_sym_in_resource = 0.4   # a resource of a node mentions one of the node's port-size symbols
         self.p_multi_deep_link = 0.3   # one source linked to several parameters nested inside the same child
@@ -46,6 +50,7 @@ class Opts:
         self.p_type_override = 0.1
         self.p_param_res_clash = 0.12
         self.p_placeholder_clash = 0.3
+        self.p_placeholder_scope_clash = 0.25
         self.p_zero_size = 0.08
         self.p_port_local_clash = 0.0
         self.p_zero_resource = 0.05
@@ -117,7 +122,7 @@ def gen_expr(rng, syms, opts, depth=2):
 # structure (bottom-up), sizes (top-down)
 def _leaf(rng, name, opts):
     n_in = rng.choice(opts.leaf_inputs)
-    n_out = rng.choice([0, 1, 1, 1, 2]) if n_in else rng.choice([0, 1])
+    n_out = rng.choice(opts.leaf_outputs) if n_in else rng.choice([0, 1])
     ports = [{"name": f"in_{i}", "direction": "input", "size": None} for i in range(n_in)]
     ports += [{"name": f"out_{i}", "direction": "output", "size": None} for i in range(n_out)]
     if rng.random() < opts.p_through:
@@ -136,7 +141,7 @@ def _wire(rng, node, opts):
     for ch in node["children"]:
         for p in ch["ports"]:
             if p["direction"] in ("input", "through"):
-                if avail and rng.random() < 0.7:
+                if avail and rng.random() < opts.p_inner_wire:
                     src = avail.pop(rng.randrange(len(avail)))
                 else:
                     pname = f"in_{n_pin}"
@@ -226,6 +231,9 @@ def _fill_repetition(rng, node, scope, opts):
         tn = "T_n"
         if count[0] == "sym" and rng.random() < 0.3:
             tn = count[1]      # the customary way of writing a closed form: in terms of the count symbol itself
+        elif scope and rng.random() < opts.p_placeholder_scope_clash:
+            # … or like a name of the wrapper's OWN scope that is not the count (the placeholder is bound by the formulas; F18)
+            tn = rng.choice([x for x in scope if not (count[0] == "sym" and count[1] == x)] or ["T_n"])
         elif rng.random() < opts.p_placeholder_clash:
             tn = rng.choice([x for x in POOL if x not in scope] or ["T_n"])
         body = E.bin_("+", E.bin_("*", E.sym(tn), E.bin_("+", E.sym(tn), par())), E.num(rng.randint(0, 2)))
@@ -320,6 +328,9 @@ def _decorate(rng, node, opts, is_root, under_rep=False, no_mult=False):
                 if not under_rep and not no_mult and rng.random() < opts.p_type_override:
                     ty = rng.choice(all_types)     # mixed typing: same name, different type than elsewhere
                 node["resources"].append({"name": rname, "type": ty, "value": val})
+        if not node["children"] and not under_rep and rng.random() < opts.p_const_width:
+            # a constant the parent may use when it declares the size of one of its own output registers (see _assign_sizes)
+            node["resources"].append({"name": "width", "type": "other", "value": E.num(rng.randint(1, 5))})
         if opts.qubit_mode and rng.random() < 0.5 and not under_rep:
             # (the type is customarily `qubits`, but any resource of that NAME counts as the routine's ancillae)
             node["resources"].append({"name": "local_ancillae", "type": rng.choice(["qubits"] * 4 + ["other", "additive"]),
@@ -458,7 +469,13 @@ def _assign_sizes(rng, node, opts, incoming_known, is_root):
         src = _source_of(node, (None, p["name"]))
         if src is not None:
             k = src_known(src)
-            if k is not None and rng.random() < 0.15 and E.fv(k) <= set(scope + port_syms):
+            wchildren = [c for c in node["children"] if any(r["name"] == "width" and r["value"][0] == "num" for r in c["resources"])]
+            if k is not None and wchildren and node["repetition"] is None and rng.random() < opts.p_output_child_res and E.fv(k) <= set(scope + port_syms):
+                # declared consistently with what flows in (W7), but written in terms of a RESOURCE of a child: k + c.width - <its value>
+                wc = rng.choice(wchildren)
+                wv = next(r["value"] for r in wc["resources"] if r["name"] == "width")
+                p["size"] = E.bin_("-", E.bin_("+", k, E.sym(wc["name"] + ".width")), wv)
+            elif k is not None and rng.random() < 0.15 and E.fv(k) <= set(scope + port_syms):
                 p["size"] = k      # declared consistently with what flows in (W7)
             else:
                 p["size"] = None
@@ -684,6 +701,9 @@ def to_qref(node, R: Rendered):
             if seq.get(k) is not None:
                 seq[k] = str(seq[k])
         cnt = R.s(rep["count"])
+        # optional fields may be left to the schema's defaults: an arithmetic sequence starting at 0 often omits `initial_term`
+        if seq.get("type") == "arithmetic" and rep["sequence"]["initial_term"] == ("num", Fraction(0)) and len(node["name"]) % 2 == 1:
+            del seq["initial_term"]
         d["repetition"] = {"count": cnt, "sequence": seq}
     if node["children"]:
         d["children"] = [to_qref(c, R) for c in node["children"]]
